@@ -21,41 +21,15 @@ from gramsym.values import (ISz, Union, Adt, z_and, z_or, z_not, z_eq, is_sym, I
 from gramsym.interp import SetV, PanicEx
 from gramsym.explorer import Explorer, Frame
 from gramsym.termgen import random_term
+from gramsym.lawlib import (implies, iff, split_option, NativeFailure, JTerm, val, concrete_truth, ConcreteCtx, empty_model)
 
 PID = "C11"
 
 
-def implies(a, b):
-    if a is True:
-        return b
-    if a is False:
-        return True
-    if b is True:
-        return True
-    if isinstance(b, bool):
-        b = z3.BoolVal(b)
-    return z3.Implies(a, b)
 
 
-def iff(a, b):
-    if isinstance(a, bool) and isinstance(b, bool):
-        return a == b
-    if isinstance(a, bool):
-        a = z3.BoolVal(a)
-    if isinstance(b, bool):
-        b = z3.BoolVal(b)
-    return a == b
 
 
-def split_option(v):
-    """Option value (possibly a union) -> (is_some formula, payload or None)."""
-    alts = v.alts if isinstance(v, Union) else [(True, v)]
-    somes = [(g, x.fields[0]) for g, x in alts if x.variant == "Some"]
-    is_some = z_or(*[g for g, _ in somes])
-    if not somes:
-        return False, None
-    from gramsym.merge import merge
-    return is_some, merge(somes)
 
 
 class SymImpl:
@@ -121,20 +95,10 @@ class NativeImpl:
         return k in r["result"]
 
 
-class NativeFailure(Exception):
-    pass
 
 
-class JTerm:
-    """A concrete term: JSON plus the executor's value for it (so that references and term_eq work)."""
-
-    def __init__(self, j):
-        self.json = j
-        self.value = T.from_json(j)
 
 
-def val(t):
-    return t.value if isinstance(t, JTerm) else t
 
 
 def laws(impl, R, ex, v, check, which=None):
@@ -196,25 +160,8 @@ def laws(impl, R, ex, v, check, which=None):
         check("L8.free-variables-of-open", iff(real, pred))
 
 
-def concrete_truth(f):
-    if isinstance(f, bool):
-        return f
-    r = z3.simplify(f)
-    if z3.is_true(r):
-        return True
-    if z3.is_false(r):
-        return False
-    raise InternalError("formula is not concrete: %s" % r)
 
 
-class ConcreteCtx(Explorer):
-    """An explorer with a single, already running path: for evaluating references on concrete values."""
-
-    def __init__(self):
-        Explorer.__init__(self)
-        self.frames.append(Frame(self._new_solver()))
-        self.fuel_left = 10 ** 7
-        self.eq_cache = {}
 
 
 def main():
